@@ -221,6 +221,13 @@ func c16Scenarios(tier string) []engine.Scenario {
 					// an existing account that never confirmed its address: still indistinguishable from a missing one
 					flows.SeedAcct(s, w, flows.Acct{PID: U3, Password: P3, Unconfirmed: true})
 				}
+				if s.Cfg.Has("remember") && !hasTOTP {
+					// browser B1 is back on a remember cookie of u1 (real requests: login with remember-me, restart,
+					// first request on the cookie): a half-authenticated session is one more thing a response could touch
+					flows.Exec(s, w, flows.Login(s, "B1", U1, P1, true), "")
+					w.Browsers["B1"].Session = map[string]string{}
+					flows.Exec(s, w, flows.Open("B1"), "")
+				}
 				return w
 			},
 			Model: c04ModelStep(cfg), State: c16State(cfg),
